@@ -27,6 +27,15 @@ CHECKS = {
              "finite sweep, not yet a theorem (partial).",
         note="Partial: language equality of the predicates is an exhaustive bounded sweep, not an unbounded theorem.",
         design="DESIGN.md section 6 C14"),
+    "C15": dict(
+        text="Coq theorems C15_prefix, C15_self_valid (the regenerated compose-id pattern accepts every created id, via the "
+             "sound+complete matcher semantics), C15_decode (decode(encode) = (date,type,respin) for every release/base-product/"
+             "variant shape and all respins < 10^7), C15_decode_refuted (the stated bound 10^8 is false of the code: finding K1), "
+             "C15_tables_agree / C15_suffix_table over the regenerated encoder/decoder tables, C15_unknown_suffix. Decoder "
+             "model (last 8-digit window) tied to get_date_type_respin by differential runs.",
+        note="The decoder is a hand model of what the pattern denotes; its tie to the regex is the differential run (ids, junk "
+             "strings with newlines and digit runs). Known finding K1 (8-digit respins).",
+        design="DESIGN.md section 6 C15"),
 }
 
 TECH = "machine-checked proof in Coq over a hand model + regenerated data; differential correspondence with the implementation"
